@@ -1402,6 +1402,11 @@ class Interp:
 
     def ex_FunctionDef(self, s, env):
         f = VFunc("ast", s.name, node=s, module=env.module, closure=env)
+        outer = self.fn_stack[-1] if getattr(self, "fn_stack", None) else None
+        oq = getattr(outer, "qual", None)
+        if oq is not None and "#" not in oq:
+            # nested function: addressable by contracts as 'path.py:outer.<locals>.inner'
+            f.qual = "%s.<locals>.%s" % (oq, s.name)
         env.set(s.name, f)
 
     def ex_Assert(self, s, env):
